@@ -24,6 +24,8 @@ pub fn div_nx1_normalized(u: &mut [u64], d: u64) -> u64 {
     // OPT: Version with in-place shifting of `u`
     debug_assert!(d >= (1 << 63));
 
+    #[cfg(recmo_uint_verif)]
+    crate::__verif::hit(crate::__verif::NX1_NORMALIZED);
     let v = reciprocal(d);
     let mut r: u64 = 0;
     for u in u.iter_mut().rev() {
@@ -58,6 +60,8 @@ pub fn div_nx1(limbs: &mut [u64], divisor: u64) -> u64 {
     if shift == 0 {
         return div_nx1_normalized(limbs, divisor);
     }
+    #[cfg(recmo_uint_verif)]
+    crate::__verif::hit(crate::__verif::NX1_SHIFT);
     let divisor = divisor << shift;
     let reciprocal = reciprocal(divisor);
 
@@ -96,6 +100,8 @@ pub fn div_nx2_normalized(u: &mut [u64], d: u128) -> u128 {
     // OPT: Version with in-place shifting of `u`
     debug_assert!(d >= (1 << 127));
 
+    #[cfg(recmo_uint_verif)]
+    crate::__verif::hit(crate::__verif::NX2_NORMALIZED);
     let v = reciprocal_2(d);
     let mut remainder: u128 = 0;
     for u in u.iter_mut().rev() {
@@ -126,6 +132,8 @@ pub fn div_nx2(limbs: &mut [u64], divisor: u128) -> u128 {
     if shift == 0 {
         return div_nx2_normalized(limbs, divisor);
     }
+    #[cfg(recmo_uint_verif)]
+    crate::__verif::hit(crate::__verif::NX2_SHIFT);
     let divisor = divisor << shift;
     let reciprocal = reciprocal_2(divisor);
 
@@ -181,16 +189,22 @@ pub fn div_2x1_mg10(u: u128, d: u64, v: u64) -> (u64, u64) {
     debug_assert!((u >> 64) < u128::from(d));
     debug_assert_eq!(v, reciprocal(d));
 
+    #[cfg(recmo_uint_verif)]
+    crate::__verif::hit(crate::__verif::D2X1_CALL);
     let q = u + (u >> 64) * u128::from(v);
     let q0 = q as u64;
     let q1 = ((q >> 64) as u64).wrapping_add(1);
     let r = (u as u64).wrapping_sub(q1.wrapping_mul(d));
     let (q1, r) = if r > q0 {
+        #[cfg(recmo_uint_verif)]
+        crate::__verif::hit(crate::__verif::D2X1_ADJ1);
         (q1.wrapping_sub(1), r.wrapping_add(d))
     } else {
         (q1, r)
     };
     let (q1, r) = if unlikely(r >= d) {
+        #[cfg(recmo_uint_verif)]
+        crate::__verif::hit(crate::__verif::D2X1_ADJ2);
         (q1.wrapping_add(1), r.wrapping_sub(d))
     } else {
         (q1, r)
@@ -259,16 +273,22 @@ pub fn div_3x2_mg10(u21: u128, u0: u64, d: u128, v: u64) -> (u64, u128) {
     debug_assert!(u21 < d);
     debug_assert_eq!(v, reciprocal_2(d));
 
+    #[cfg(recmo_uint_verif)]
+    crate::__verif::hit(crate::__verif::D3X2_CALL);
     let q = u128::mul(u21.high(), v) + u21;
     let r1 = u21.low().wrapping_sub(q.high().wrapping_mul(d.high()));
     let t = u128::mul(d.low(), q.high());
     let mut r = u128::join(r1, u0).wrapping_sub(t).wrapping_sub(d);
     let mut q1 = q.high().wrapping_add(1);
     if r.high() >= q.low() {
+        #[cfg(recmo_uint_verif)]
+        crate::__verif::hit(crate::__verif::D3X2_ADJ1);
         q1 = q1.wrapping_sub(1);
         r = r.wrapping_add(d);
     }
     if unlikely(r >= d) {
+        #[cfg(recmo_uint_verif)]
+        crate::__verif::hit(crate::__verif::D3X2_ADJ2);
         q1 = q1.wrapping_add(1);
         r = r.wrapping_sub(d);
     }
